@@ -6,6 +6,7 @@ package main
 import (
 	"fmt"
 	"go/types"
+	"strings"
 
 	"golang.org/x/tools/go/ssa"
 )
@@ -339,6 +340,15 @@ func registerFileIntrinsics(reg func(string, intrinsic)) {
 		k := int(ex.concretize(args[0].(*Term), "FsTraceKind index"))
 		e := ex.fs.trace[k]
 		return Str{s: e.Kind + ":" + e.File}
+	})
+	reg(vfPkg+".FsTraceIsWrite", func(ex *Exec, fr *frame, fn *ssa.Function, args []Value) Value {
+		k := int(ex.concretize(args[0].(*Term), "FsTraceIsWrite index"))
+		suffix := ex.concStrArg(args[1], "FsTraceIsWrite")
+		if k < 0 || k >= len(ex.fs.trace) {
+			return ex.tc.Bool(false)
+		}
+		e := ex.fs.trace[k]
+		return ex.tc.Bool(e.Kind == "write" && strings.HasSuffix(e.File, suffix))
 	})
 	reg(vfPkg+".FsTraceWriteLen", func(ex *Exec, fr *frame, fn *ssa.Function, args []Value) Value {
 		k := int(ex.concretize(args[0].(*Term), "FsTraceWriteLen index"))
